@@ -300,6 +300,27 @@ def run_stream(ctx, name, ops, cwd=None, shards=None):
             if a != b:
                 dis.append((s + j * shards, op, a, b))
     dis.sort()
+    # the driver's per-op deadline is wall-clock time: on a busy machine an op can miss it without hanging.
+    # An op answered HANG / DRIVER-TIMEOUT is run again alone with a long deadline; only a repeated hang counts.
+    slow = [d for d in dis if d[2] in ("HANG", "DRIVER-TIMEOUT") or d[3] in ("HANG", "DRIVER-TIMEOUT")]
+    if slow and len(slow) <= 50:
+        env = dict(os.environ, GODRV_DEADLINE_MS="20000")
+        kept = []
+        for (k, op, a, b) in dis:
+            if (k, op, a, b) in slow:
+                try:
+                    pa = subprocess.run([ctx.godrv], input=op + "\n", cwd=cwd, timeout=60, env=env, stdout=subprocess.PIPE, stderr=subprocess.PIPE, text=True, errors="replace")
+                    a = (pa.stdout.split("\n") or ["DRIVER-DIED"])[0]
+                    pb = subprocess.run([lean_driver()], input=op + "\n", timeout=60, stdout=subprocess.PIPE, stderr=subprocess.PIPE, text=True, errors="replace")
+                    b = (pb.stdout.split("\n") or ["DRIVER-DIED"])[0]
+                except subprocess.TimeoutExpired:
+                    pass
+                ctx.cov.setdefault("solo_reruns_of_slow_ops", 0)
+                ctx.cov["solo_reruns_of_slow_ops"] += 1
+                if a == b:
+                    continue
+            kept.append((k, op, a, b))
+        dis = kept
     st = ctx.cov["streams"].setdefault(name, {"ops": 0, "disagreements": 0, "wall_s": 0.0})
     st["ops"] += len(ops)
     st["disagreements"] += len(dis)
